@@ -108,6 +108,9 @@ theorem fs_stepM (s s' : St) (v : Variant) (h : FutInv s) (ht : TokInv s) (hs : 
     | (refine fs_via s _ _ ?_ ?_ (fs_mAdd _)
        · fs_frameM s, h
        · tok_simple s, ht)
+    | (refine fs_via s _ _ ?_ ?_ (fs_mAddF _)
+       · fs_frameM s, h
+       · tok_simple s, ht)
     | (refine fs_via s _ _ ?_ ?_ (fs_mAfterItem _)
        · fs_frameM s, h
        · tok_simple s, ht)
